@@ -92,11 +92,11 @@ func c10Sign(c *core.Ctx) {
 			a := sx.Of(st.Addr).String()
 			v := sx.Of(st.Val)
 			if a == "CERT.AggchainData" {
-				if v.Op == "lit" && v.Fields["Signature"] != nil && v.Fields["Signature"].Val == sig {
+				if v.Op == "lit" && v.Fields["Signature"] != nil && sameModuloNil(v.Fields["Signature"].Val, sig) {
 					stored = true
 				}
 			}
-			if strings.HasPrefix(a, "CERT.AggchainData") && strings.HasSuffix(a, ".Signature") && st.Val == sig {
+			if strings.HasPrefix(a, "CERT.AggchainData") && strings.HasSuffix(a, ".Signature") && sameModuloNil(st.Val, sig) {
 				stored = true
 			}
 		})
@@ -336,7 +336,20 @@ func c10Wire(c *core.Ctx) {
 				}
 				if cc := core.AsCall(i); cc != nil && cc.IsInvoke() && cc.Method.Name() == "SubmitCertificate" {
 					req := sx.Of(cc.Args[1])
-					okReq = req.Op == "lit" && req.Fields["Certificate"] != nil && req.Fields["Certificate"].Val == ssa.Value(pc)
+					okReq = false
+					if req.Op == "lit" && req.Fields["Certificate"] != nil {
+						// the value may have travelled through a merge with nil placeholders of error paths
+						okReq = true
+						n := 0
+						for _, lf := range phiLeaves(req.Fields["Certificate"].Val) {
+							if isNilConst(lf.val) {
+								continue
+							}
+							n++
+							okReq = okReq && lf.val == ssa.Value(pc)
+						}
+						okReq = okReq && n >= 1
+					}
 				}
 			})
 			c.Decide(okBE && okIBE, rule, "grpc.SendCertificate#exits", send.Pos(), "every bridge exit / imported bridge exit is converted, in order")
@@ -1099,4 +1112,22 @@ func c10WireUnconditional(c *core.Ctx) {
 		sort.Strings(bad)
 		c.Decide(len(bad) == 0 && n > 0, rule, "grpc."+fnName+"#fields-set-on-every-path", fn.Pos(), fmt.Sprintf("%d field stores into protobuf messages, all before the message is used, on every path (conditional: %v)", n, bad))
 	}
+}
+
+// sameModuloNil: v is want, possibly merged with nil placeholders that travel with an error.
+func sameModuloNil(v, want ssa.Value) bool {
+	if v == want {
+		return true
+	}
+	n := 0
+	for _, lf := range phiLeaves(v) {
+		if isNilConst(lf.val) {
+			continue
+		}
+		n++
+		if lf.val != want {
+			return false
+		}
+	}
+	return n >= 1
 }
